@@ -1,8 +1,9 @@
 #!/bin/sh
 # try_seed.sh <patch> <ID...> : apply a seeded change to /repo, run the named checks, undo it.
 P="$1"; shift
-git -C /repo apply "$P" || { echo "patch does not apply"; exit 3; }
+REPO="${VERIF_REPO:-/repo}"
+git -C "$REPO" apply "$P" || { echo "patch does not apply"; exit 3; }
 for id in "$@"; do
   timeout 1800 /verif/check "$id" > /tmp/try_$id.log 2>&1; echo "check $id exit=$? $(grep -c '^VIOLATION' /tmp/try_$id.log) violation line(s): $(grep -E '^(VIOLATION|INCONCLUSIVE)' /tmp/try_$id.log | head -2 | cut -c1-200)"
 done
-git -C /repo checkout -- .
+git -C "$REPO" checkout -- .
